@@ -161,9 +161,11 @@ class ExplorerScriptSsbDecompiler:
 
             return self._output, self.smb.build()
 
-        except AssertionError:
+        except Exception:
             # If an assertion failed, then either there is a bug in the decompiler or the script is not valid, ie.
             # has no ending opcode at the end of routines. Try to fallback to SsbScript.
+            # The graph passes and the writers also report shapes they can not express with ValueError, KeyError,
+            # TypeError or RecursionError; SsbScript can spell every routine, so all of them end up here.
             logger.warning("Failed to decompile. Falling back to SsbScript...")
             prefix = "//?: is-ssb-script: true\n"
             prefix += "// WARNING:\n"
